@@ -326,3 +326,14 @@ func init() {
 		Assumptions: []string{"a base64 variant that yields the identical string is not an alteration and is skipped", "uniform-failure clause is checked among refusals whose cause is the signature (sealed bytes changed, foreign key, wrong kind); malformed-encoding and wrong-version refusals may use their own wording"},
 	}
 }
+
+// retag returns tok with its leading (unsealed) version byte replaced by
+// like's.
+func retag(tok, like string) string {
+	a, b := rawOf(tok), rawOf(like)
+	if len(a) == 0 || len(b) == 0 {
+		return tok
+	}
+	a[0] = b[0]
+	return enc(a)
+}
